@@ -309,11 +309,18 @@ pub type ShrinkFn<'a> = &'a dyn Fn(&Value) -> Vec<Value>;
 pub fn minimise(v: &Violation, replay: ReplayFn, shrink: ShrinkFn, budget: usize) -> Violation {
     let mut best = v.clone();
     let mut spent = 0usize;
+    // candidates already tried (a shrinker may propose the scenario itself, e.g. "the
+    // second half" of a one-element list: accepting that would spend the budget in place)
+    let mut seen: std::collections::HashSet<String> = std::collections::HashSet::new();
+    seen.insert(best.scenario.to_string());
     loop {
         let mut improved = false;
         for cand in shrink(&best.scenario) {
             if spent >= budget {
                 return best;
+            }
+            if !seen.insert(cand.to_string()) {
+                continue;
             }
             spent += 1;
             let vs = replay(&cand);
